@@ -23,12 +23,12 @@ CHECKS = {
    note="Bound: bin counts 1..4 (quick) / 1..8, 16, 100 (thorough; Series/monotone up to 8, multi-point up to 4 bins, ratios 1/2, 2, 3). Wrapped law is a contract stub (uninterpreted functions / identity law). Class edges are (k/n)*L_max (the real table holds fl(k/n)*L_max, <= 1 ulp away); floats modelled as reals.",
    design="6 C07"),
  "C14": dict(
-   text="Bounded exhaustive symbolic check of the Python/pandas part of the accounting: LoadCollective derived quantities (upper-lower = 2 amplitude, mean, R with its IEEE cases, cycles), equivalence of range/mean and from/to descriptions, scale/shift with symbolic operand leaving cycles untouched; rebin_histogram / combine_histogram with symbolic non-negative counts over an enumerated family of gap-free binnings (regular, irregular, single class, identical, refining, coarsening, integer bin count): total conserved, identity, composition through a refining binning, grand total and per-class sums of a sum-combination.",
-   note="Claimed in part: the np.histogram/np.histogram2d based clauses (C code on float64) and symbolic bin edges are outside. Bounds: 1..2 (quick) / 1..3 (thorough) collective rows; binnings with 1..2 / 1..4 classes on the grid {0,0.5,1,2,3,4} (1-D, 2-D, permuted source order). Totals compared with 1e-12 relative tolerance because overlap fractions are float constants.",
+   text="Bounded exhaustive symbolic check of the accounting: LoadCollective derived quantities (upper-lower = 2 amplitude, mean, R with its IEEE cases, cycles), equivalence of range/mean and from/to descriptions, scale/shift with symbolic operand leaving cycles untouched; histogramming (range_histogram, histogram, per element along an axis, LoopValueRecorder.histogram) with symbolic cycles executed through the real numpy.histogram / histogramdd Python code on object arrays (sort, searchsorted and comparison loops call the symbolic comparison operators): classes are the requested gap-free limits, every class count lies between the number of cycles strictly inside and inside-or-on-the-limits of the class, counts sum to the number of cycles inside the covered range, range histogram == marginal of the range/mean histogram when all means are covered; rebin_histogram / combine_histogram with symbolic non-negative counts over an enumerated family of gap-free binnings (regular, irregular, single class, identical, refining, coarsening, integer bin count, permuted source, 2-D): total conserved, identity, composition through a refining binning, grand total and per-class sums of a sum-combination.",
+   note="Bounds: 1..2 (quick) / 1..3 (thorough) collective rows; histogrammed collectives 1..2 / 1..3 cycles with 1..2 / 1..3 classes given as edge list, IntervalIndex, IntervalArray (class limits concrete: IntervalIndex is float64-backed), number of bins 1..3 with two concrete rows spanning the data and 1 / 2 symbolic rows, repeated index labels; re-binning over binnings with 1..2 / 1..4 classes on the grid {0,0.5,1,2,3,4}. Which of two adjacent classes receives a cycle exactly on their common limit is left open (as the property does). Totals of re-binning compared with 1e-12 relative tolerance because overlap fractions are float constants. Two defects found by this check were repaired (73f5732, ee39cfd).",
    design="6 C14"),
  "C12": dict(
    text="Bounded exhaustive symbolic check of the real mean-stress transformation code (HaighDiagram.transform, _SegmentTransformer, fkm_goodman, five_segment_correction, collective and matrix accessors): amplitude > 0 and mean symbolic, so every sector of the Haigh plane and every border (R = 0, +-inf, 1, R12, R23) is a path. FKM-Goodman result == geometric iso-damage walk oracle; for FKM-Goodman and five-segment diagrams: T_R2 o T_R1 == T_R2, idempotence, cycle on the target ray unchanged, non-decreasing in amplitude; plain function == collective accessor (range/mean and from/to); matrix accessor conserves the symbolic cycle counts.",
-   note="Mean stress sensitivities and R_goal are concrete and enumerated (4-6 (M,M2) pairs, 2-3 five-segment sets, 10 targets incl. -inf and R > 1); restricted to cycles whose iso-damage amplitude stays positive. Value claims carry 1e-12 relative tolerance. Floats as reals; float constants stand for the simplest rational that rounds to them.",
+   note="Mean stress sensitivities and R_goal are concrete and enumerated (5-6 (M,M2) pairs incl. M2 = 0 and M2 = M, 2-3 five-segment sets, 10 targets incl. -inf and R > 1); restricted to cycles whose iso-damage amplitude stays positive. Value claims carry 1e-12 relative tolerance. Floats as reals; float constants stand for the simplest rational that rounds to them.",
    design="6 C12"),
  "C11": dict(
    text="Bounded exhaustive symbolic check of Fatigue.damage, the Miner elementary/Haibach lifetime multiples, solidity and gassner_cycles on symbolic collectives: amplitudes > 0, cycle counts >= 0 (zero allowed: empty classes at top, bottom, in between are paths), SD, ND > 0 symbolic, slope k_1 a concrete integer so that all quantities are rational functions. Additivity, proportionality to the counts, member-order independence, original <= Haibach <= elementary per class; the collective scaled to the predicted Gassner cycles has damage sum one under the corresponding rule (decided as a rational-function identity); effective damage sum in [0.3, 1].",
@@ -47,8 +47,8 @@ CHECKS = {
    note="Bound: sequence length 2..5 (quick) / 2..6 (thorough); refinement base length 2..3 / 2..4. Integer loads (tolerance comparisons exact, rewritten to integer arithmetic). Linear stub law (counting depends on loads only). Two junction defects found by this check were repaired in /repo (b090510, 375d6ae); no region is excluded.",
    design="6 C04"),
  "C05": dict(
-   text="Bounded exhaustive symbolic check of the HCM stress-strain bookkeeping of the real FKMNonlinearDetector / FKMNonlinearRecorder against an independent scalar implementation of the HCM case analysis (primary branch, Masing secondary branches from the reversal point, Memory 1-3, running strain extremes, pass numbers): every column of recorder.collective and the visited strain values; multi-point series (non-contiguous node ids, proportional loads) give every point its single-point rows; negated loads mirror all stresses and strains.",
-   note="Bound: 2 and 4 reversals per period (proper reversal sequences incl. start from zero and junction; everything else is C04), 1..3 points with factors 1/2, 2, 3. Notch law = odd extensions of positive increasing uninterpreted functions (contract stub); concrete replays use an analytic law. Integer loads. The oracle was written from the same reading of the guideline as the code. Multi-point running strain extremes are not compared (decided on the first node; equality per node needs Masing/convexity).",
+   text="Bounded exhaustive symbolic check of the HCM stress-strain bookkeeping of the real FKMNonlinearDetector / FKMNonlinearRecorder against an independent scalar implementation of the HCM case analysis (primary branch, Masing secondary branches from the reversal point, Memory 1-3, running strain extremes, pass numbers): every column of recorder.collective and the visited strain values; multi-point series (non-contiguous node ids, proportional loads) give every point its single-point rows, also when the history is fed in several process() calls with borders anywhere (any samples, compared with the point processed alone through the same calls); negated loads mirror all stresses and strains.",
+   note="Bound: 2 and 4 reversals per period (proper reversal sequences incl. start from zero and junction; everything else is C04), 1..3 points with factors 1/2, 2, 3. Notch law = odd extensions of positive increasing uninterpreted functions (contract stub); concrete replays use an analytic law. Integer loads. The oracle was written from the same reading of the guideline as the code. Multi-point running strain extremes are not compared (decided on the first node; equality per node needs Masing/convexity). Chunked multi-point cases: 4 (quick) / 4..5 (thorough) integer samples, one or two chunk borders. A defect found by this check was repaired (be8c19e).",
    design="6 C05"),
  "C08": dict(
    text="Symbolic check of the real WoehlerCurve accessor in log-domain arithmetic (every positive quantity is 10**e with e a real symbol, so the power laws are linear arithmetic on exponents): cycles/load mutual inverses across the knee and for k_2 = inf, knee value, slopes k_1 above and k_2 below the endurance limit, non-increasing in load, Miner variants change only k_2 and leave the original untouched, cycles grow with the failure probability, N_90/N_10 = TN and SD_90/SD_10 = TS, group law and identity of transform_to_failure_probability, std <-> scatter range inverses with T = 10**(2 z_0.9 s), array and Series input == scalar calls.",
@@ -56,7 +56,7 @@ CHECKS = {
    design="6 C08"),
  "C09": dict(
    text="Symbolic check of the encodable clauses: P_RAM / P_RAJ component Woehler curves (log domain): calc_N and calc_P mutual inverses in the finite range, continuity at N = 1e3 and at the endurance knee, strictly decreasing, infinite at and below the endurance value; P_RAM damage parameter == sqrt((S_a + k S_m) eps_a E) with the guideline's mean-stress factor and zero for a negative product (sqrt exact); DamageCalculatorPRAM lifetime (sequence repetitions and cycles, infinite-life flag) == literal accumulation of first-pass damage once and second-pass damage repeatedly, half hystereses half, early failure by running sum, for every closed/half x pass pattern up to the bound; gamma_L of the normal / log-normal / blanket load safety accessors == guideline formulas.",
-   note="Claimed in part: compute_beta (root search on |Phi(x)-P_A|), the P_RAJ damage parameter (cos, real powers, Newton) and DamageCalculatorPRAJ are outside. Curve exponents are the constants of three material groups; R_m in {400,600,1200}; x**y in the damage calculator is an arbitrary positive number depending on (x,y) (represented as 1/t, t > 0 fresh); 1..3 (quick) / 1..5 (thorough) hystereses.",
+   note="Claimed in part: compute_beta (root search on |Phi(x)-P_A|), the P_RAJ damage parameter (cos, real powers, Newton) and DamageCalculatorPRAJ are outside. Curve exponents are the constants of three material groups; R_m in {400,600,1200}; P_RAM tables with float and with integer-typed stress columns (dtype effects show in the concrete replay of every path witness on the real code); x**y in the damage calculator is an arbitrary positive number depending on (x,y) (represented as 1/t, t > 0 fresh); 1..3 (quick) / 1..5 (thorough) hystereses.",
    design="6 C09"),
  "C18": dict(
    text="Bounded exhaustive symbolic check of the one encodable clause: FatigueData zone logic on symbolic loads and cycles for every fracture-flag pattern: finite and infinite zone are disjoint and cover all tests, every infinite-zone load <= reported transition <= every finite-zone load, all tests in the finite zone without run-outs, zone membership and transition invariant under row permutation.",
